@@ -52,6 +52,12 @@ FILE_FAULTS = {
     "top_level_scalar": ("json", "5", None),
     "top_level_string": ("json", '"text"', None),
     "top_level_null": ("json", "null", None),
+    "top_level_empty_string": ("json", '""', None),
+    "lookup_to_empty_string": ("json", json.dumps({"meta": {"note": ""}, "d": {"items": [{"id": 9}]}}), "meta.note"),
+    "lookup_to_empty_string_yaml": ("yaml", "meta:\n  note: \"\"\n", "meta.note"),
+    "lookup_to_empty_ini_option": ("ini", "[server]\nmotd =\nport = 1\n", "server.motd"),
+    "lookup_to_false": ("json", json.dumps({"d": {"items": False}}), "d.items"),
+    "lookup_to_zero": ("json", json.dumps({"d": {"items": 0}}), "d.items"),
     "list_of_scalars": ("json", "[1, 2]", None),
     "list_with_one_scalar": ("json", '[{"id": 7, "name": "z"}, 3]', None),
     "list_with_null": ("json", '[{"id": 7, "name": "z"}, null]', None),
@@ -67,6 +73,13 @@ ARG_FAULTS = {
     "bad_merge_policy": ["--merge", "bogus"],
     "bad_merge_policy_arg": ["--merge", "percent_abc"],
     "bad_merge_policy_with_arg": ["--merge", "bogus_5"],
+    "merge_policy_empty_argument": ["--merge", "percent_"],
+    "merge_policy_empty_argument_number": ["--merge", "number_"],
+    "merge_policy_argument_for_exact": ["--merge", "exact_5"],
+    "merge_policy_two_arguments": ["--merge", "percent_70_80"],
+    "merge_policy_two_arguments_number": ["--merge", "number_1_0"],
+    "merge_policy_bad_after_good": ["--merge", "exact", "number_"],
+    "merge_policy_float_for_number": ["--merge", "number_1.5"],
     "custom_without_generator": ["-f", "custom"],
     "generator_without_custom": ["--code-generator", "verif_gen.Boom"],
     "unknown_framework": ["-f", "nope"],
